@@ -134,9 +134,15 @@ def parseObs (j : Json) : R Obs := do
   let written ← match j.getObjVal? "written" with
     | .ok v => (← arr v).mapM parseWritten
     | .error _ => pure []
+  let unready ← match j.getObjVal? "unready" with
+    | .ok v => (← arr v).mapM (fun t => do
+        match (← (← arr t).mapM (·.getStr?)) with
+        | [u, a, d] => pure (u, a, d)
+        | _ => throw "bad unready")
+    | .error _ => pure []
   return { modules := ← fldStrs j "modules", errors := ← (← fldArr j "errors").mapM parseErr,
            log := ← (← fldArr j "log").mapM parseEv, ioDict := ← (← fldArr j "ioDict").mapM parsePair,
-           written := written }
+           written := written, unready := unready }
 
 /-- the schedule the implementation followed, read off its log: one action per thread event -/
 def schedOf (st : St) (log : List Ev) : List Act :=
@@ -189,9 +195,14 @@ def handle (j : Json) : R Json := do
   let cfg ← parseCfg (← fld j "cfg")
   match k with
   | "run" =>
+    -- round number of a restarted node (0 / absent: the first start): the model's configuration of that round
+    let round ← match j.getObjVal? "round" with
+      | .ok v => v.getNat?
+      | .error _ => pure 0
+    let cfg := roundCfg cfg round
     let implLog ← (← fldArr j "log").mapM parseEv
     let implShutdown ← fldStrs j "shutdown"
-    let fuel := 4 * (cfg.mods.length + cfg.dyn.length) + 8
+    let fuel := fuelFor cfg
     let st := startup cfg fuel
     let sched := schedOf st implLog
     let att := attOf st.edges
